@@ -1566,3 +1566,19 @@ Proof.
               ltac:(unfold INT_MAX; lia) ex_admissible) as (q & oks & E & HI & Ha & _).
   exists q, oks. auto.
 Qed.
+
+(* the load-factor boundary at a size where 66*size/100 is an integer: growth at 33 of 50 *)
+Example ex_load_boundary :
+  load_test 32 50 = false /\ load_test 33 50 = true /\
+  load_test 1417339207 2147483647 = false /\ load_test 1417339208 2147483647 = true.
+Proof. vm_compute. repeat split. Qed.
+
+(* a shrinking rehash (8 -> 5 slots, three colliding keys, one tombstone) keeps pairs and order *)
+Example ex_resize :
+  exists t q, obj_run Z.eqb (fun _ => 7) (fun _ => true) (table_new Z Z 8)
+                [OAdd 1 10 false false false; OAdd 2 20 false false false; OAdd 3 30 false false false;
+                 OAdd 4 40 false false false; ODel 2] = Some (t, [true; true; true; true; true]) /\
+    lh_table_resize (fun _ => 7) (fun _ => true) t 5 = IOk q /\
+    obj_iter t = [(1, 10); (3, 30); (4, 40)] /\ obj_iter q = [(1, 10); (3, 30); (4, 40)] /\
+    tsize q = 5 /\ lh_walk t = [7; 1; 2] /\ lh_walk q = [2; 3; 4] /\ lh_walk_back q = [4; 3; 2].
+Proof. eexists _, _. vm_compute. repeat split. Qed.
